@@ -151,6 +151,10 @@ def render(prj):
     """-> (text, lines, extra): text of the entry file, lines = [{aid, line, col, text}] locating every assertion's expression
     (1-based, in the file that contains it), extra = {file name: text} of the importable files."""
     prj.setdefault("files", [])
+    for d in prj["segdefs"]:
+        d.setdefault("pc", d["start"])
+        d.setdefault("write", True)
+        d.setdefault("size", 0)
     outs, lines = {}, []
     out = []
     banks = []
@@ -158,9 +162,11 @@ def render(prj):
         if d["bank"] not in banks:
             banks.append(d["bank"])
     for b in banks:
-        out.append('.define bank { name = "%s" }' % b)
+        size = max(d["size"] for d in prj["segdefs"] if d["bank"] == b)
+        out.append('.define bank { name = "%s"%s }' % (b, " size = $%x fill = 0" % size if size else ""))
     for d in prj["segdefs"]:
-        out.append('.define segment { name = "%s" start = $%04x bank = "%s" }' % (d["name"], d["start"], d["bank"]))
+        out.append('.define segment { name = "%s" start = $%04x%s%s bank = "%s" }'
+                   % (d["name"], d["start"], " pc = $%04x" % d["pc"] if d["pc"] != d["start"] else "", "" if d["write"] else " write = false", d["bank"]))
 
     def go(ss, ind):
         pad = "    " * ind
@@ -183,6 +189,10 @@ def render(prj):
                 out.append(pad + ".const " + st["name"] + " = " + render_expr(st["e"]))
             elif k == "setpc":
                 out.append(pad + "* = " + render_expr(st["e"]))
+            elif k == "iftest":
+                out.append(pad + ".if defined(TEST) {")
+                go(st["body"], ind + 1)
+                out.append(pad + "}")
             elif k == "import":
                 out.append(pad + '.import * from "%s"' % st["file"])
             elif k == "data":
@@ -257,7 +267,7 @@ def parse_output(stdout, stderr):
         f["line"], f["col"], f["msg"] = int(m.group(2)), int(m.group(3)), m.group(4)
     obs["ndiags"] = len(diags)
     # the assembler rejected the project: nothing was run (outside C18; the judge only notes it)
-    obs["buildFailed"] = (not obs["tests"]) and (not obs["summary"]) and len(diags) > 0
+    obs["buildFailed"] = (not obs["tests"]) and (not obs["summary"]) and (len(diags) > 0 or "error:" in stdout) and "panicked at" not in stderr
     # tests were run, then an error ended the run before the summary
     obs["aborted"] = bool(obs["tests"]) and (not obs["summary"]) and "error:" in stdout and "panicked at" not in stderr
     return obs
@@ -322,7 +332,8 @@ def run_project(mos, d, text, timeout=10, extra=None):
     obs["panic"] = "none"
     if "panicked at" in se:
         obs["panic"] = ("slice" if "out of range for slice" in se else
-                        "overflow" if ("attempt to add with overflow" in se and "emulator_6502" in se) else "other")
+                        "overflow" if (("attempt to add with overflow" in se or "attempt to subtract with overflow" in se)
+                                       and "emulator_6502" in se) else "other")
     obs["exit"] = rc
     obs["hung"] = hung
     runs = [] if hung else parse_trace(tr)
@@ -778,7 +789,7 @@ class Gen:
                          insn("sta", "dir", num(0)),
                          assert_(binop("==", ram(num(0xffff, "hex"), word=True), self.lit(lo + 256 * hi if r.random() < 0.8 else lo)), None)]
             elif q < 0.05 and ti == ntests - 1:
-                body.append(insn("jmp", "ind", num(0xffff, "hex")))
+                body.append(insn("jmp", "ind", num(0xffff, "hex")) if r.random() < 0.5 else data(1, [num(2)]))    # .byte 2 = KIL
             tail = [insn("brk")] if (r.random() < 0.9 or inside or self.vectors) else []
             tb = body + tail
             for vec, tgt in self.vectors:           # vectors of jmp (vec), behind the brk
@@ -802,7 +813,27 @@ class Gen:
             items.append(useseg("va", [data(2, [num(x, "hex") for x in self.bank_vectors["sa"]])]))
             items.append(useseg("vb", [data(2, [num(x, "hex") for x in self.bank_vectors["sb"]])]))
         files = []
-        if not banked and ntests >= 1 and r.random() < 0.2:
+        shape = r.random()
+        if banked and shape < 0.06:
+            # the first bank is declared with a size that reaches past $FFFF (padded file image)
+            for d in segdefs:
+                d["size"] = (0x10100 - min(x["start"] for x in segdefs if x["bank"] == "ba")) if d["bank"] == "ba" else 0
+        elif not banked and shape < 0.10:
+            if shape < 0.05:
+                # everything runs at $8000 but is stored at $4000
+                segdefs = [{"name": "code", "bank": "bk", "start": 0x4000, "pc": 0x8000}]
+                items = [useseg("code", items)]
+            else:
+                # the code lives in a segment that is not written to the file image
+                segdefs = [{"name": "keep", "bank": "bk", "start": 0x2000}, {"name": "tests", "bank": "bk", "start": 0x8000, "write": False}]
+                items = [useseg("keep", [data(1, [num(0x60, "hex")])]), useseg("tests", items)]
+        elif not banked and shape < 0.15:
+            # a test that only exists in the test configuration
+            idx = [i for i, st in enumerate(items) if st["k"] == "test"]
+            if idx:
+                i = r.choice(idx)
+                items[i] = {"k": "iftest", "body": [items[i]]}
+        elif not banked and ntests >= 1 and r.random() < 0.2:
             # the last test (with the subroutines written behind it) lives in an imported file
             idx = max(i for i, st in enumerate(items) if st["k"] == "test" or (st["k"] == "label" and st["hasBody"] and st["body"] and st["body"][0]["k"] == "test"))
             files = [{"name": "lib.asm", "items": items[idx:]}]
